@@ -27,14 +27,36 @@ import (
 	"verifharness/ref"
 )
 
-// Answer is one scripted answer of the server: [status, class].
+// Answer is one scripted answer of the server: [status, class, src].  Src names the earlier answer a replay class
+// (replayBody, replaySigOther...) draws on; it is absent ({"k":"none"}) when the body is made for the request.
 type Answer struct {
 	Status int    `json:"status"`
 	Class  string `json:"class"`
+	Src    *Src   `json:"src,omitempty"`
 }
+
+// Src is an earlier 200 answer of a signed endpoint, as the specification's variable `served` keeps it.
+type Src struct {
+	K      string `json:"k,omitempty"`
+	Method string `json:"method,omitempty"`
+	Chain  string `json:"chain,omitempty"`
+	Class  string `json:"class,omitempty"`
+}
+
+func (a Answer) String() string {
+	if a.Replayed() {
+		return fmt.Sprintf("{%d %s of the earlier %s(%s) answer %s}", a.Status, a.Class, a.Src.Method, a.Src.Chain, a.Src.Class)
+	}
+	return fmt.Sprintf("{%d %s}", a.Status, a.Class)
+}
+
+// Replayed tells whether the answer is made out of an earlier one.
+func (a Answer) Replayed() bool { return a.Src != nil && a.Src.Method != "" }
 
 // Step mirrors one completed call of the specification's history variable.
 type Step struct {
+	Config  string   `json:"config"`  // how the client is given the key: der | pem | bothSame | bothDifferent
+	Rotated bool     `json:"rotated"` // the key option was assigned to the sequence by the driver (not part of fingerprints)
 	Method  string   `json:"method"`
 	Chain   string   `json:"chain"`
 	Answers []Answer `json:"answers"`
@@ -51,13 +73,35 @@ func (s Step) Label() string {
 	}
 	a := s.Answers[len(s.Answers)-1]
 	l := a.Class
+	if a.Replayed() {
+		// which earlier answer, and whether this call is the one it was given to
+		l += "<" + a.Src.Class
+		if kindOf(a.Src.Method) != kindOf(s.Method) {
+			l += "@otherKind"
+		} else if a.Src.Method != s.Method || a.Src.Chain != s.Chain {
+			l += "@otherCall"
+		}
+	}
 	if a.Status != 200 {
 		l = fmt.Sprintf("%d/%s", a.Status, a.Class)
 	}
 	if s.End != "answered" {
 		l += "+" + s.End
 	}
+	if strings.HasPrefix(s.Config, "both") && !s.Rotated {
+		l += "@" + s.Config // both key options set
+	}
 	return l
+}
+
+func kindOf(method string) string {
+	switch method {
+	case "GetSTH":
+		return "sth"
+	case "AddChain", "AddPreChain":
+		return "sct"
+	}
+	return "data"
 }
 
 // Chain is a submitted chain with the entry an independent client derives from it.
@@ -77,6 +121,7 @@ type World struct {
 	OtherType crypto.Signer // foreign key of the other type
 	LogSPKI   []byte
 	LogPEM    string
+	OtherPEM  string // the foreign key of the same type, as a PEM block (configuration bothDifferent)
 	LogID     []byte
 	ForeignID []byte
 
@@ -110,6 +155,50 @@ type Body struct {
 	RootHash []byte
 	Ext      []byte
 	Entries  [][2][]byte
+	// the fields of a signed answer as they were put into the JSON text (what a replaying server cuts and pastes)
+	sth *sthParts
+	sct *sctParts
+}
+
+type sthParts struct {
+	size, ts uint64
+	sent     []byte // sha256_root_hash as sent (any length)
+	sig      string // base64 of the DigitallySigned
+	has      bool   // tree_head_signature present
+}
+
+type sctParts struct {
+	ver     int
+	id      []byte
+	ts      uint64
+	extText string // the JSON string of "extensions" as sent
+	ext     []byte // what it decodes to
+	sig     string
+	has     bool
+}
+
+func (p sthParts) text() string {
+	f := []string{fmt.Sprintf(`"tree_size":%d`, p.size), fmt.Sprintf(`"timestamp":%d`, p.ts), fmt.Sprintf(`"sha256_root_hash":"%s"`, b64(p.sent))}
+	if p.has {
+		f = append(f, fmt.Sprintf(`"tree_head_signature":"%s"`, p.sig))
+	}
+	return "{" + strings.Join(f, ",") + "}"
+}
+
+func (p sctParts) text() string {
+	f := []string{fmt.Sprintf(`"sct_version":%d`, p.ver), fmt.Sprintf(`"id":"%s"`, b64(p.id)), fmt.Sprintf(`"timestamp":%d`, p.ts),
+		fmt.Sprintf(`"extensions":"%s"`, p.extText)}
+	if p.has {
+		f = append(f, fmt.Sprintf(`"signature":"%s"`, p.sig))
+	}
+	return "{" + strings.Join(f, ",") + "}"
+}
+
+// as32 is what a 32-byte array holds after the field has been copied into it.
+func as32(b []byte) []byte {
+	out := make([]byte, 32)
+	copy(out, b)
+	return out
 }
 
 func must[T any](v T, err error) T {
@@ -135,7 +224,9 @@ func NewWorld(keyType string, seed int64, shared *Shared) *World {
 		panic(err)
 	}
 	w.LogPEM = string(pem.EncodeToMemory(&pem.Block{Type: "PUBLIC KEY", Bytes: w.LogSPKI}))
-	w.ForeignID, _, _ = ref.KeyID(w.Other.Public())
+	var otherSPKI []byte
+	w.ForeignID, otherSPKI, _ = ref.KeyID(w.Other.Public())
+	w.OtherPEM = string(pem.EncodeToMemory(&pem.Block{Type: "PUBLIC KEY", Bytes: otherSPKI}))
 	w.TS = 1700000000123
 	w.Size = 7
 	h := sha256.Sum256([]byte("root of seven leaves"))
@@ -208,7 +299,7 @@ func NewShared(rng *mrand.Rand) *Shared {
 	}
 	for n, c := range s.Chains {
 		want := ref.PrecertEntry
-		if n == "x509" {
+		if n == "x509" || n == "x509b" {
 			want = ref.X509Entry
 		}
 		if c.Entry.Type != want || c.Other.Type != want || c.OtherType.Type == want {
@@ -219,6 +310,31 @@ func NewShared(rng *mrand.Rand) *Shared {
 		panic("pki: pre-issuer substitution changed nothing")
 	}
 	s.Entries = buildEntries(s, rng)
+	// A second chain for add-chain (history: an SCT given for one chain served again for another).  Issued after everything
+	// else so that the certificates above are what they were; its own "other" entries belong to no submitted chain either.
+	leafB := inter.Issue(pki.Opts{CN: "leafb", DNS: []string{"leafb.example"}})
+	leafB2 := inter.Issue(pki.Opts{CN: "leafb2", DNS: []string{"leafb2.example"}})
+	s.Chains["x509b"] = &Chain{
+		DER:       ders(leafB),
+		Entry:     ref.Entry{Type: ref.X509Entry, Cert: leafB.DER},
+		Other:     ref.Entry{Type: ref.X509Entry, Cert: leafB2.DER},
+		OtherType: ref.Entry{Type: ref.PrecertEntry, IssuerKeyHash: inter.SPKIHash(), TBS: tbsOf(leafB.DER)},
+	}
+	s.Chains["x509b"].NotFinal = s.Chains["x509b"].Other
+	// LogClient.tla, Relative: what a signature made for one chain (or for a deviation of it) covers is the input of no
+	// other chain
+	for n1, c1 := range s.Chains {
+		for n2, c2 := range s.Chains {
+			if n1 == n2 {
+				continue
+			}
+			for _, e := range []ref.Entry{c2.Entry, c2.Other, c2.OtherType, c2.NotFinal} {
+				if bytes.Equal(ref.SCTSignatureInput(0, c1.Entry, nil), ref.SCTSignatureInput(0, e, nil)) {
+					panic("pki: the entry of chain " + n1 + " coincides with an entry derived from chain " + n2)
+				}
+			}
+		}
+	}
 	return s
 }
 
@@ -414,13 +530,8 @@ func (w *World) sthJSON(d sthDev) (*Body, string) {
 		msg = ref.STHSignatureInput(sts, ssize, sroot)
 	}
 	sig, has := w.sign(d.who, d.sigForm, d.alg, msg)
-	var f []string
-	f = append(f, fmt.Sprintf(`"tree_size":%d`, size), fmt.Sprintf(`"timestamp":%d`, w.TS))
-	f = append(f, fmt.Sprintf(`"sha256_root_hash":"%s"`, b64(sent)))
-	if has {
-		f = append(f, fmt.Sprintf(`"tree_head_signature":"%s"`, sig))
-	}
-	return &Body{TS: w.TS, Size: size, RootHash: root}, "{" + strings.Join(f, ",") + "}"
+	p := &sthParts{size: size, ts: w.TS, sent: sent, sig: sig, has: has}
+	return &Body{TS: w.TS, Size: size, RootHash: root, sth: p}, p.text()
 }
 
 type sctDev struct {
@@ -482,13 +593,8 @@ func (w *World) sctJSON(ch *Chain, d sctDev) (*Body, string) {
 	if d.omitFields {
 		return &Body{TS: w.TS}, "null"
 	}
-	f := []string{fmt.Sprintf(`"sct_version":%d`, ver)}
-	f = append(f, fmt.Sprintf(`"id":"%s"`, b64(id)))
-	f = append(f, fmt.Sprintf(`"timestamp":%d`, w.TS), fmt.Sprintf(`"extensions":"%s"`, b64(ext)))
-	if has {
-		f = append(f, fmt.Sprintf(`"signature":"%s"`, sig))
-	}
-	return &Body{TS: w.TS, Ext: ext}, "{" + strings.Join(f, ",") + "}"
+	p := &sctParts{ver: ver, id: id, ts: w.TS, extText: b64(ext), ext: ext, sig: sig, has: has}
+	return &Body{TS: w.TS, Ext: ext, sct: p}, p.text()
 }
 
 func sthDevOf(class string) (sthDev, bool) {
@@ -651,7 +757,8 @@ func (w *World) render(method, chain, class string, rng *mrand.Rand) *Body {
 			strings.Replace(valid, `"sct_version":0`, `"sct_version":"v1"`, 1), strings.Replace(valid, `"extensions":"`, `"extensions":7,"q":"`, 1))
 		badB64 = pick(strings.Replace(valid, `"id":"`, `"id":"!!`, 1), strings.Replace(valid, `"signature":"`, `"signature":"*`, 1))
 		if class == "extBadBase64" { // a JSON string all right, decoded by the client itself
-			valid = strings.Replace(valid, `"extensions":"`, `"extensions":"*`, 1)
+			body.sct.extText = "*" + body.sct.extText
+			valid = body.sct.text()
 		}
 	case "GetSTHConsistency":
 		body = &Body{}
@@ -724,6 +831,95 @@ func (w *World) render(method, chain, class string, rng *mrand.Rand) *Body {
 	return body
 }
 
+// ---------------------------------------------------------------- history
+
+// RenderAnswer produces the body of one scripted answer to the call (method, chain): made for the request, or - the
+// history dimension of LogClient.tla - made out of the body this world serves for the earlier answer a.Src: the whole
+// of it byte for byte (replayBody), its fields with one of them altered and its signature bytes as they were
+// (replaySigOther<Field>), or its signature bytes under the well-formed fields of the other kind of answer
+// (replaySigOtherKind).  The alterations are the ones the fresh classes sigOver<Field> sign over (tree_size + 1, the
+// other root, timestamp + 1), so a signature that did not fit the earlier body may fit the later one.
+func (w *World) RenderAnswer(method, chain string, a Answer) *Body {
+	if !a.Replayed() {
+		return w.Render(method, chain, a.Class)
+	}
+	key := method + "|" + chain + "|" + a.Class + "<" + a.Src.Method + "|" + a.Src.Chain + "|" + a.Src.Class
+	w.mu.Lock()
+	b, ok := w.memo[key]
+	w.mu.Unlock()
+	if ok {
+		return b
+	}
+	src := w.Render(a.Src.Method, a.Src.Chain, a.Src.Class)
+	b = w.replay(method, chain, a.Class, a.Src.Method, src)
+	w.mu.Lock()
+	defer w.mu.Unlock()
+	if prev, ok := w.memo[key]; ok {
+		return prev
+	}
+	w.memo[key] = b
+	return b
+}
+
+func (w *World) replay(method, chain, class, srcMethod string, src *Body) *Body {
+	if src.ReadFails {
+		panic("c12: a body whose transfer failed is not a source of replays")
+	}
+	if class == "replayBody" {
+		if kindOf(method) != kindOf(srcMethod) {
+			panic("c12: replayBody across kinds is not in the specification")
+		}
+		c := *src
+		c.Bytes = append([]byte{}, src.Bytes...)
+		return &c
+	}
+	if class == "replaySigOtherKind" {
+		switch {
+		case method == "GetSTH" && src.sct != nil:
+			p := sthParts{size: w.Size, ts: w.TS, sent: w.RootHash, sig: src.sct.sig, has: src.sct.has}
+			return &Body{TS: p.ts, Size: p.size, RootHash: as32(p.sent), sth: &p, Bytes: []byte(p.text())}
+		case kindOf(method) == "sct" && src.sth != nil:
+			p := sctParts{ver: 0, id: w.LogID, ts: w.TS, extText: "", sig: src.sth.sig, has: src.sth.has}
+			return &Body{TS: p.ts, sct: &p, Bytes: []byte(p.text())}
+		}
+		panic("c12: replaySigOtherKind needs a signed answer of the other kind as its source")
+	}
+	switch {
+	case method == "GetSTH" && src.sth != nil:
+		p := *src.sth
+		switch class {
+		case "replaySigOtherSize":
+			p.size++
+		case "replaySigOtherRoot":
+			// the other root at the length the earlier field had
+			r := append(append([]byte{}, w.Root2...), make([]byte, 32)...)
+			p.sent = r[:len(src.sth.sent)]
+		case "replaySigOtherTimestamp":
+			p.ts++
+		default:
+			panic("c12: unknown replay class " + class + " for get-sth")
+		}
+		return &Body{TS: p.ts, Size: p.size, RootHash: as32(p.sent), sth: &p, Bytes: []byte(p.text())}
+	case kindOf(method) == "sct" && src.sct != nil:
+		p := *src.sct
+		switch class {
+		case "replaySigOtherTimestamp":
+			p.ts++
+		case "replaySigOtherExtensions":
+			if len(p.ext) == 0 {
+				p.ext = w.Ext
+			} else {
+				p.ext = nil
+			}
+			p.extText = b64(p.ext)
+		default:
+			panic("c12: unknown replay class " + class + " for a submission")
+		}
+		return &Body{TS: p.ts, Ext: p.ext, sct: &p, Bytes: []byte(p.text())}
+	}
+	panic("c12: replay class " + class + " has no source of the same kind")
+}
+
 // ---------------------------------------------------------------- transport
 
 // Script is the scripted server of one call.
@@ -783,7 +979,7 @@ func (s *Script) RoundTrip(req *http.Request) (*http.Response, error) {
 	}
 	a := s.step.Answers[s.i]
 	s.i++
-	b := s.w.Render(s.step.Method, s.step.Chain, a.Class)
+	b := s.w.RenderAnswer(s.step.Method, s.step.Chain, a)
 	s.Served = append(s.Served, b)
 	h := http.Header{}
 	h.Set("Content-Type", "application/json")
